@@ -66,6 +66,7 @@ type World struct {
 	Signers  map[string]cmttypes.PrivValidator
 
 	Relay *Relayer
+	Calls *CallRec
 
 	stats      map[string]*PropStats
 	violations []Violation
@@ -76,6 +77,9 @@ type World struct {
 	Mons []Monitor
 
 	menu              []opGen
+	lastRefresh       time.Time
+	NoKeepAlive       bool
+	propsThisStep     int
 	stepExtra         func() []TxSpec
 	providerBlockOpts func() *BlockOpts
 	consumerExtra     func(l *Link) ([]TxSpec, *BlockOpts)
